@@ -345,7 +345,11 @@ def m_cases(tier):
         for idx in range(n):
             cs.append(calc_speeds_case(n, idx))
     # bounded runs: braking curve + controller over every phase of the time-step grid (stop at the end of the path; slowdown)
-    cs += [bounded_run_case(3), bounded_run_case(4, 1, True, True)]
+    cs.append(bounded_run_case(3))
+    if tier == "thorough":
+        # the slowdown run usually takes 80 s, but its path exploration leans on three early `unknown` feasibility answers and one run
+        # in four did not finish in 20 minutes: not fit for the every-change tier
+        cs.append(bounded_run_case(4, 1, True, True))
     return cs
 
 
